@@ -246,11 +246,99 @@ point, any change on a law with a cached helper sampler); distinct by hash of th
         let sub = sub_of("hist", dist);
         ctx.run_prop_par(&sub, n, 16, || history(dist, max_ops, nseeds), check_hist);
     }
+    // bulk reproducibility: every distribution x every size x {sample_n, sample_matrix}, then random parameters
+    for dist in 0..N_DIST as u8 {
+        for (k, n) in BULK_SIZES.iter().enumerate() {
+            for cols in [0usize, 8] {
+                if cols > 0 && n % cols != 0 {
+                    continue;
+                }
+                let c = BulkCase { dist, a: 0, b: 0, n: *n, cols, seed: crate::engine::mix_seed(ctx.seed, "C18/bulk", (dist as u64) << 8 | k as u64) };
+                let sub = format!("bulk/{}", DIST_NAMES[dist as usize]);
+                ctx.check_one(&sub, &c, check_bulk);
+            }
+        }
+    }
+    ctx.exhaustive.push("bulk reproducibility: 13 distributions (default-class parameters) x 14 sizes from 1 to 100000 x {sample_n, sample_matrix with 8 columns}".into());
+    ctx.run_prop_par("bulk", ctx.scale(300, 6_000), 16, bulk_strat, check_bulk);
     // byte-decoded histories (all distributions mixed; exercises the fuzz decoder)
     ctx.run_prop_par("bytes", ctx.scale(4_000, 50_000), 8, || proptest::collection::vec(any::<u8>(), 0..160).prop_map(|bytes| BytesCase { bytes }), check_bytes);
 }
 
+/// Bulk reproducibility: one `sample_n(n)` / `sample_matrix(r, c)` call from a fixed seed, for sizes on
+/// both sides of every plausible batching threshold (a bulk path that hands work to other threads does
+/// not see the thread-local seed).
+#[derive(Clone, Debug, serde::Serialize, serde::Deserialize)]
+pub struct BulkCase {
+    pub dist: u8,
+    pub a: u16,
+    pub b: u16,
+    pub n: usize,
+    /// 0 = sample_n(n); otherwise sample_matrix(n / cols, cols)
+    pub cols: usize,
+    pub seed: u64,
+}
+
+pub const BULK_SIZES: [usize; 14] = [1, 2, 17, 255, 256, 1000, 1024, 4096, 16383, 16384, 16385, 40000, 65536, 100000];
+
+pub fn check_bulk(ctx: &mut Ctx, c: &BulkCase) -> R {
+    if c.dist as usize >= N_DIST || c.n == 0 || c.n > 200_000 || (c.cols > 0 && c.n % c.cols != 0) {
+        return Ok(());
+    }
+    let name = DIST_NAMES[c.dist as usize];
+    let sub = format!("bulk/{}", name);
+    let p = valid_params(c.dist, c.a, c.b);
+    if !in_domain(c.dist, &p) || min_shape(c.dist, &p) < SAFE_SHAPE {
+        return Ok(());
+    }
+    ctx.case(&sub, &format!("{}/n={}", if c.cols == 0 { "sample_n" } else { "sample_matrix" }, c.n), c.n >= 2, Hx::new().json(c).finish());
+    ctx.sample(&sub, || json!(c));
+    let what = if c.cols == 0 { format!("sample_n({})", c.n) } else { format!("sample_matrix({}, {})", c.n / c.cols, c.cols) };
+    let obj = match Obj::construct(c.dist, &p) {
+        Ok(o) => o,
+        Err(m) => return crate::engine::fail(format!("C18/{}/new/valid-rejected", name), format!("{}::new{:?} (valid parameters) panicked: {}", name, p, m)),
+    };
+    let first = obj.bulk(c.seed, c.n, c.cols);
+    let again = obj.bulk(c.seed, c.n, c.cols);
+    let twin = Obj::construct(c.dist, &p).and_then(|t| t.bulk(c.seed, c.n, c.cols));
+    let (f, g, t) = match (first, again, twin) {
+        (Ok(f), Ok(g), Ok(t)) => (f, g, t),
+        (a, b, t) => {
+            let m = [a.err(), b.err(), t.err()].into_iter().flatten().next().unwrap_or_default();
+            return crate::engine::fail(format!("C18/{}/bulk/panic", name), format!("{}{:?}.{} panicked: {}", name, p, what, m));
+        }
+    };
+    let (er, ec) = if c.cols == 0 { (1, c.n) } else { (c.n / c.cols, c.cols) };
+    ensure!(f.1 == er && f.2 == ec && f.0.len() == c.n, format!("C18/{}/bulk/shape", name), "{}{:?}.{} returned shape {}x{} with {} values", name, p, what, f.1, f.2, f.0.len());
+    let diff = |x: &Vec<u64>, y: &Vec<u64>| x.iter().zip(y).filter(|(a, b)| a != b).count();
+    ensure!(
+        f.0 == g.0,
+        format!("C18/{}/reproducibility/bulk", name),
+        "{}{:?}.{} from seed {} twice on the same object: {} of {} values differ — bulk sampling is not a function of the seed",
+        name, p, what, c.seed, diff(&f.0, &g.0), c.n
+    );
+    ensure!(
+        f.0 == t.0,
+        format!("C18/{}/twin/bulk", name),
+        "{}{:?}.{} from seed {}: a freshly constructed twin draws a different stream ({} of {} values differ)",
+        name, p, what, c.seed, diff(&f.0, &t.0), c.n
+    );
+    Ok(())
+}
+
+fn bulk_strat() -> impl Strategy<Value = BulkCase> {
+    (0..N_DIST as u8, any::<u16>(), any::<u16>(), 0..BULK_SIZES.len(), 0usize..4, any::<u64>()).prop_map(|(dist, a, b, si, ci, seed)| {
+        let n = BULK_SIZES[si];
+        let cols = [0usize, 0, 1, 8][ci];
+        let cols = if cols > 0 && n % cols != 0 { 0 } else { cols };
+        BulkCase { dist, a, b, n, cols, seed }
+    })
+}
+
 pub fn replay(ctx: &mut Ctx, sub: &str, v: Value) -> Option<R> {
+    if sub.starts_with("bulk/") || sub == "bulk" {
+        return Some(check_bulk(ctx, &decode::<BulkCase>(v)?));
+    }
     if sub == "bytes" {
         return Some(check_bytes(ctx, &decode::<BytesCase>(v)?));
     }
